@@ -87,7 +87,7 @@ impl Auth {
             }
             return v;
         }
-        let mut push = |v: &mut Pairs, name: &str, val: Vec<u8>| {
+        let push = |v: &mut Pairs, name: &str, val: Vec<u8>| {
             for (n, dv, before) in &q.dup_query_params {
                 if n == name && *before && (with_signature || n != "X-Amz-Signature") {
                     v.push((n.clone().into_bytes(), dv.clone()));
@@ -659,7 +659,7 @@ pub fn render(m: &Message, t: &mut Tape, o: &RenderOpts) -> Wire {
     if m.auth.carrier == Carrier::Header && !q.omit.contains(&"authorization") {
         let a = &m.auth;
         let mut params: Vec<String> = Vec::new();
-        let mut push = |params: &mut Vec<String>, name: &str, val: String| {
+        let push = |params: &mut Vec<String>, name: &str, val: String| {
             for (n, dv, before) in &q.dup_header_params {
                 if n == name && *before {
                     params.push(format!("{}={}", n, dv));
